@@ -96,6 +96,19 @@ CHECKS = {
         'quick': {'shards': 16, 'timeout': 900},
         'thorough': {'shards': 16, 'timeout': 5400},
     },
+    'C13': {
+        'pkg': 'internal/multiplex', 'test': 'TestVerif_C13', 'level': 'exploration',
+        'technique': 'runtime trace checker: every record a real session writes is decoded from a wire tap with the reference codec and checked offline against the recorded call/return history of concurrent Write/ReadFrom/Close (uniqueness, gap-freeness, contiguity, real-time order), with injected send failures; race detector as second monitor',
+        'level_text': 'A real Session writes to tapped connections while 1..8 goroutines call Write on the same stream, one feeds ReadFrom, and Close comes at a random moment (1..16 streams, sizes from 1 byte to 4 frames, all methods, GOMAXPROCS sweep); '
+                      'the decoded wire log must show: no (stream, seq) pair twice (nonce uniqueness), seqs exactly 0..n-1 when no send failed, each data frame a contiguous piece of one write, per-writer bytes in order, writes ordered consistently with real time, '
+                      'one closing frame numbered after every write that completed before Close. One case in five injects a send that fails after its bytes left, or a broken connection, to check "skipped but never reused".',
+        'level_note': 'Assumes ' + A_RACE + ' and ' + A_HARNESS + '. Schedules are sampled, not enumerated. Writes of a writer are matched greedily by content (sizes >= 8 bytes when several writers share a stream, so matches are unambiguous).',
+        'rule': 'case = one concurrent history (method, connections, streams, writers per stream, ReadFrom on/off, Close on/off, write-size set, GOMAXPROCS, injected send failure); distinct = hash of the case; '
+                'interleavings counts distinct global orders of connection writes observed; non-trivial = at least 3 writes per writer were issued and every frame on the wire was decoded and attributed',
+        'assumptions': [A_RACE, A_HARNESS],
+        'quick': {'shards': 16, 'timeout': 600},
+        'thorough': {'shards': 16, 'timeout': 3600},
+    },
 }
 
 NOT_APPLICABLE = {p: 'check not built yet in this round (the design in DESIGN.md section 3 applies; runtime monitoring can decide it)'
